@@ -74,6 +74,12 @@ def menu():
     m["map_legacy"] = {"Type": "Map", "ItemsPath": "$.items", "Iterator": it({"Type": "Pass"}), "Parameters": {"v.$": "$$.Map.Item.Value"}}
     m["map_task"] = {"Type": "Map", "ItemsPath": "$.items", "ItemProcessor": it({"Type": "Task", "Resource": fa("f")}), "MaxConcurrency": 1}
     m["map_root"] = {"Type": "Map", "ItemProcessor": it({"Type": "Pass", "Parameters": {"it.$": "$"}})}
+    # InputPath on a fan-out: items / branch input come from the effective input, ResultPath merges into the *raw* input, also when
+    # the Map re-enters itself for its next MaxConcurrency batch or is retried
+    m["map_inpath"] = {"Type": "Map", "InputPath": "$.a", "ItemsPath": "$.b", "ResultPath": "$.m", "MaxConcurrency": 1, "ItemProcessor": it({"Type": "Pass"})}
+    m["map_inpath_retry"] = {"Type": "Map", "InputPath": "$.a", "ItemsPath": "$.b", "ResultPath": "$.m", "Retry": [{"ErrorEquals": ["States.ALL"], "IntervalSeconds": 1, "MaxAttempts": 2}],
+                             "ItemProcessor": it({"Type": "Task", "Resource": fa("f")})}
+    m["par_inpath"] = {"Type": "Parallel", "InputPath": "$.a", "ResultPath": "$.par", "Branches": [br({"Type": "Pass"}), br({"Type": "Pass", "Parameters": {"b.$": "$.b"}})]}
     return m
 
 def build(names):
